@@ -384,6 +384,16 @@ def bounded(tier, seed):
             num = f.date2num(times, 'time')
             if not np.allclose(num, np.arange(n) * step_h):
                 return 'date2num(getTimes()) = %r' % (num,)
+            # the same instants expressed in other time zones are the same instants
+            for off in (timedelta(hours=-5), timedelta(hours=5, minutes=30), timedelta(hours=9)):
+                tz = timezone(off)
+                local = [t_.astimezone(tz) for t_ in times]
+                num = f.date2num(local, 'time')
+                if not np.allclose(num, np.arange(n) * step_h):
+                    return 'date2num of the same instants written with UTC offset %s = %r' % (off, np.asarray(num).tolist())
+                idx = np.asarray(f.time2idx([t_.astimezone(tz) for t_ in q], dim='time'))
+                if not np.array_equal(idx, exp):
+                    return 'time2idx of instants written with UTC offset %s: %r expected %r' % (off, idx.tolist(), exp.tolist())
             return None
         run.case('C16:time2idx/date2num', (step_h, n, tdt), t_time)
     return run.result(
